@@ -1,0 +1,8 @@
+//go:build verif && amd64
+
+package verifhooks
+
+import "github.com/charlievieth/strcase/internal/bytealg"
+
+func CountGeneric(b []byte, c byte) int       { return bytealg.VerifCountGeneric(b, c) }
+func CountGenericString(s string, c byte) int { return bytealg.VerifCountGenericString(s, c) }
